@@ -6,14 +6,13 @@ import StepupModel.Lemmas.ReachDesc
 survive: the seven ways the kernel rewrites the creator forest (`detach` of an attached or of a
 detached row, `reattach`, the recycling and the fresh branch of `Trellis.create`, the hand-over of
 `register_static_tree`, one pass of `delete_detached`), each under the guards the code provides at
-that point.  Every operation of the kernel model is then shown to keep `Q s.skel` (together with
-`DepsKindOK s`, which is needed to know that no dependency ends in the root), up to `KState.exec`,
-`KState.step`, `KState.run`.  The operations that do not write `creator`/`detached` are covered by
+that point.  Every operation of the kernel model is then shown to keep `Q s.skel`, up to
+`KState.exec`, `KState.step`, `KState.run`.  The operations that do not write `creator`/`detached` are covered by
 the frame lemma of `Lemmas/ReachFrame.lean`; the composite ones are the proofs of
-`Lemmas/Stable.lean` with the new leaves.  The only request that does not keep such a predicate is
-`detach` of the root (the model, like `Node.detach`, has no guard there; in the code the `CHECK`
-constraints of the `node` table reject it): it is an explicit hypothesis on the history.
-No property statements here.
+`Lemmas/Stable.lean` with the new leaves.  `detach` of the root needs no side condition: the CHECKs
+of the `node` table (`creatorAllowed`) reject the write, so the request is rejected as a whole.
+No property statements here.  (The section "Composite operations" is re-synced with
+`Lemmas/Stable.lean` by `notes/reach_regen.py` when the kernel model changes.)
 -/
 namespace StepupModel.K
 open StepupModel.Lemmas Sk
@@ -49,42 +48,35 @@ structure SkStable (Q : List Tri → Prop) : Prop where
     (∀ t ∈ l, D t.1 = true → ∀ u ∈ l, u.2.1 = some t.1 → u.1 = t.1) → Q (l.filter fun t => !D t.1)
 
 /-- The state predicate that goes with `Q`. -/
-def PQ (Q : List Tri → Prop) (s : KState) : Prop := DepsKindOK s ∧ Q s.skel
+def PQ (Q : List Tri → Prop) (s : KState) : Prop := Q s.skel
 
 namespace SkStable
 variable {Q : List Tri → Prop}
 
-theorem nodup (L : SkStable Q) {s : KState} (hp : PQ Q s) : Sk.Nodup s.skel := (L.ok _ hp.2).nodup
+theorem nodup (L : SkStable Q) {s : KState} (hp : PQ Q s) : Sk.Nodup s.skel := (L.ok _ hp).nodup
+
+theorem pq_of_skel {s s' : KState} (h : s'.skel = s.skel) (hp : PQ Q s) : PQ Q s' := by
+  unfold PQ at *
+  rw [h]; exact hp
 
 /-- Operations that leave the creator forest alone keep `PQ Q`. -/
 theorem toFrame (L : SkStable Q) : FrameL (PQ Q) where
-  cache s p f hf hp := ⟨stable_depsKindOK.cache s p f hf hp.1,
-    ((frameL_skel s.skel (L.nodup hp)).cache s p f hf rfl) ▸ hp.2⟩
-  fileWrite s k n n' st nh hf hw hp := ⟨stable_depsKindOK.fileWrite s k n n' st nh hf hw hp.1,
-    ((frameL_skel s.skel (L.nodup hp)).fileWrite s k n n' st nh hf hw rfl) ▸ hp.2⟩
-  fileInit s k st h1 h2 hp := ⟨stable_depsKindOK.fileInit s k st h1 h2 hp.1,
-    ((frameL_skel s.skel (L.nodup hp)).fileInit s k st h1 h2 rfl) ▸ hp.2⟩
-  stepWrite s k n n' st d hf hw hp := ⟨stable_depsKindOK.stepWrite s k n n' st d hf hw hp.1,
-    ((frameL_skel s.skel (L.nodup hp)).stepWrite s k n n' st d hf hw rfl) ▸ hp.2⟩
-  stepInit s k i hp := ⟨stable_depsKindOK.stepInit s k i hp.1,
-    ((frameL_skel s.skel (L.nodup hp)).stepInit s k i rfl) ▸ hp.2⟩
-  setHash s k h hp := ⟨stable_depsKindOK.setHash s k h hp.1,
-    ((frameL_skel s.skel (L.nodup hp)).setHash s k h rfl) ▸ hp.2⟩
-  deleteHash s k hp := ⟨stable_depsKindOK.deleteHash s k hp.1,
-    ((frameL_skel s.skel (L.nodup hp)).deleteHash s k rfl) ▸ hp.2⟩
-  bumpDefer s k hp := ⟨stable_depsKindOK.bumpDefer s k hp.1,
-    ((frameL_skel s.skel (L.nodup hp)).bumpDefer s k rfl) ▸ hp.2⟩
-  hold s k hp := ⟨stable_depsKindOK.hold s k trivial hp.1,
-    ((frameL_skel s.skel (L.nodup hp)).hold s k rfl) ▸ hp.2⟩
-  release s k n hf hne hp := ⟨stable_depsKindOK.release s k n hf hne hp.1,
-    ((frameL_skel s.skel (L.nodup hp)).release s k n hf hne rfl) ▸ hp.2⟩
-  recycled s k need shell hp := ⟨stable_depsKindOK.recycled s k need shell hp.1,
-    ((frameL_skel s.skel (L.nodup hp)).recycled s k need shell rfl) ▸ hp.2⟩
-  addDep s src snk h1 h2 hp := ⟨stable_depsKindOK.addDep s src snk h1 h2 hp.1, hp.2⟩
-  filterDeps s p hp := ⟨stable_depsKindOK.filterDeps s p hp.1, hp.2⟩
-  markDyn s src snk dyn hp := ⟨stable_depsKindOK.markDyn s src snk dyn hp.1, hp.2⟩
-  queueDelete s path h hp := ⟨stable_depsKindOK.queueDelete s path h hp.1, hp.2⟩
-  clearQueue s hp := ⟨stable_depsKindOK.clearQueue s hp.1, hp.2⟩
+  cache s p f hf hp := pq_of_skel ((frameL_skel s.skel (L.nodup hp)).cache s p f hf rfl) hp
+  fileWrite s k n n' st nh hf hw hp := pq_of_skel ((frameL_skel s.skel (L.nodup hp)).fileWrite s k n n' st nh hf hw rfl) hp
+  fileInit s k st h1 h2 hp := pq_of_skel ((frameL_skel s.skel (L.nodup hp)).fileInit s k st h1 h2 rfl) hp
+  stepWrite s k n n' st d hf hw hp := pq_of_skel ((frameL_skel s.skel (L.nodup hp)).stepWrite s k n n' st d hf hw rfl) hp
+  stepInit s k i hp := pq_of_skel ((frameL_skel s.skel (L.nodup hp)).stepInit s k i rfl) hp
+  setHash s k h hp := pq_of_skel ((frameL_skel s.skel (L.nodup hp)).setHash s k h rfl) hp
+  deleteHash s k hp := pq_of_skel ((frameL_skel s.skel (L.nodup hp)).deleteHash s k rfl) hp
+  bumpDefer s k hp := pq_of_skel ((frameL_skel s.skel (L.nodup hp)).bumpDefer s k rfl) hp
+  hold s k hp := pq_of_skel ((frameL_skel s.skel (L.nodup hp)).hold s k rfl) hp
+  release s k n hf hne hp := pq_of_skel ((frameL_skel s.skel (L.nodup hp)).release s k n hf hne rfl) hp
+  recycled s k need shell hp := pq_of_skel ((frameL_skel s.skel (L.nodup hp)).recycled s k need shell rfl) hp
+  addDep s src snk h1 h2 hp := hp
+  filterDeps s p hp := hp
+  markDyn s src snk dyn hp := hp
+  queueDelete s path h hp := hp
+  clearQueue s hp := hp
 
 /-- The frame lemma in the form used below: an operation that keeps "the forest is `X`" keeps it. -/
 theorem skel_eq_of_frame {f : KState → M KState} (hF : ∀ X, Sk.Nodup X → Preserves (fun s => s.skel = X) f)
@@ -110,7 +102,8 @@ theorem detachCore_skel {s s' : KState} {k : Key} {n : Node} (hf : s.find? k = s
     (h : s.detachCore k n = .ok s') :
     (n.creator = none ∧ s'.skel = s.skel) ∨
     (∃ ck, n.creator = some ck ∧ n.detached = true ∧ s'.skel = setRow k none true s.skel) ∨
-    (∃ ck D, n.creator = some ck ∧ n.detached = false ∧ (∀ x, D x = true ↔ Desc (setRow k none true s.skel) k x) ∧
+    (∃ ck D, n.creator = some ck ∧ n.detached = false ∧ k ≠ rootKey ∧
+      (∀ x, D x = true ↔ Desc (setRow k none true s.skel) k x) ∧
       s'.skel = setD D true (setRow k none true s.skel)) := by
   unfold KState.detachCore at h
   cases hc : n.creator with
@@ -124,7 +117,8 @@ theorem detachCore_skel {s s' : KState} {k : Key} {n : Node} (hf : s.find? k = s
     | error e => simp [h1, bind, Except.bind] at h
     | ok s1 =>
       simp only [h1, bind, Except.bind, pure, Except.pure, Except.ok.injEq] at h
-      obtain ⟨hs1, _⟩ := skel_setCreator h1
+      obtain ⟨hs1, hall⟩ := skel_setCreator h1
+      have hk : k ≠ rootKey := fun hk => (creatorAllowed_none hall).2 (by rw [hk]; rfl)
       cases hd : n.detached with
       | true =>
         simp only [hd, Bool.not_true, Bool.false_eq_true, if_false] at h
@@ -133,20 +127,21 @@ theorem detachCore_skel {s s' : KState} {k : Key} {n : Node} (hf : s.find? k = s
       | false =>
         simp only [hd, Bool.not_false, if_true] at h
         subst h
-        refine Or.inr ⟨ck, fun x => (s1.descendants k).contains x, rfl, rfl, ?_, ?_⟩
+        refine Or.inr ⟨ck, fun x => (s1.descendants k).contains x, rfl, rfl, hk, ?_, ?_⟩
         · intro x; rw [descendants_contains, hs1]
         · rw [skel_setDetachedRec, hs1]
 
 theorem detachCore_pq (L : SkStable Q) (k : Key) (n : Node) (s s' : KState) (hf : s.find? k = some n)
-    (hk : k ≠ rootKey) (hp : PQ Q s) (h : s.detachCore k n = .ok s') : PQ Q s' := by
-  refine ⟨stable_depsKindOK.detachCore_preserves k n s s' hp.1 h, ?_⟩
+    (hp : PQ Q s) (h : s.detachCore k n = .ok s') : PQ Q s' := by
+  unfold PQ at *
   have hrow := find?_row hf
-  rcases detachCore_skel hf h with ⟨_, h1⟩ | ⟨ck, hc, hd, h1⟩ | ⟨ck, D, hc, hd, hD, h1⟩
-  · rw [h1]; exact hp.2
-  · rw [h1]; rw [hd] at hrow; exact L.detachDet _ k _ hp.2 hrow
-  · rw [h1]; rw [hc, hd] at hrow; exact L.detachAtt _ k ck D hp.2 hk hrow hD
+  rcases detachCore_skel hf h with ⟨_, h1⟩ | ⟨ck, hc, hd, h1⟩ | ⟨ck, D, hc, hd, hk, hD, h1⟩
+  · rw [h1]; exact hp
+  · rw [h1]; rw [hd] at hrow; exact L.detachDet _ k _ hp hrow
+  · rw [h1]; rw [hc, hd] at hrow; exact L.detachAtt _ k ck D hp hk hrow hD
 
-theorem detach_pq (L : SkStable Q) (k : Key) (hk : k ≠ rootKey) : Preserves (PQ Q) (fun s => s.detach k) := by
+/-- `Node.detach` (+ `Step.detach`); on the root the write is rejected. -/
+theorem detach_preserves (L : SkStable Q) (k : Key) : Preserves (PQ Q) (fun s => s.detach k) := by
   intro s s' hp h
   replace h : s.detach k = .ok s' := h
   unfold KState.detach at h
@@ -154,7 +149,7 @@ theorem detach_pq (L : SkStable Q) (k : Key) (hk : k ≠ rootKey) : Preserves (P
   | none => simp [hf] at h
   | some n =>
     simp only [hf] at h
-    refine bind_ok h (fun s1 h1 => L.detachCore_pq k n s s1 hf hk hp h1) ?_
+    refine bind_ok h (fun s1 h1 => L.detachCore_pq k n s s1 hf hp h1) ?_
     exact L.toFrame.detachFlags_preserves k
 
 /-- `Node.detach` of a detached row only cuts its link. -/
@@ -168,7 +163,7 @@ theorem detach_det_skel {s s' : KState} {k : Key} {c : Option Key} (hn : Sk.Nodu
   | ok s1 =>
     simp only [h1, bind, Except.bind] at h
     have hs1 : s1.skel = setRow k none true s.skel := by
-      rcases detachCore_skel hf h1 with ⟨hc, h2⟩ | ⟨ck, _, _, h2⟩ | ⟨ck, D, _, hd, _, _⟩
+      rcases detachCore_skel hf h1 with ⟨hc, h2⟩ | ⟨ck, _, _, h2⟩ | ⟨ck, D, _, hd, _, _, _⟩
       · rw [h2]
         unfold setRow
         symm
@@ -203,19 +198,6 @@ theorem products_detached {l : List Tri} (h : Sk.OK l) {k : Key} {ck : Option Ke
     rw [hc] at hc'
     simp only [Option.some.injEq] at hc'
     subst hc'; exact absurd hac hnk
-
-/-- The root is nobody's product. -/
-theorem product_ne_root {s : KState} (h : Sk.OK s.skel) {k : Key} {p : Node} (hp : p ∈ s.products k) :
-    p.key ≠ rootKey := by
-  unfold KState.products at hp
-  obtain ⟨hm, hc⟩ := List.mem_filter.1 hp
-  simp only [decide_eq_true_eq] at hc
-  intro hr
-  have := Sk.uniq h.nodup (mem_skel_of_mem hm) h.root hr
-  simp only [Node.tri, Prod.mk.injEq] at this
-  have h1 : some rootKey = some k := this.2.1.symm.trans hc.1
-  simp only [Option.some.injEq] at h1
-  exact hc.2 (hr.trans h1)
 
 theorem map_id_of {l : List Tri} (g : Tri → Tri) (hg : ∀ t ∈ l, g t = t) : l.map g = l := by
   conv => rhs; rw [← List.map_id l]
